@@ -60,6 +60,28 @@ ShareOK(nodes, total, rt) ==
     /\ Fair(nodes, rt) /\ Exact(nodes, rt)
 
 (****************************** design level *******************************)
+(***************************************************************************)
+(* 64-bit-scale values (memory in bytes) do not fit TLC's 32-bit integers. *)
+(* For them the harness logs every amount divided by a unit U (floor), and *)
+(* the predicates below are the consequences of the exact ones that        *)
+(* survive the flooring: each exact predicate implies its coarse form, so  *)
+(* a coarse violation is a violation, while some exact violations (smaller *)
+(* than a unit) go unnoticed.  N = number of siblings.  Weights are not    *)
+(* compared (Fair has no sound coarse form).                               *)
+(***************************************************************************)
+CBase(nodes, i) == IF nodes[i].req > MinP(nodes, i) THEN MinP(nodes, i)
+                   ELSE IF nodes[i].lent THEN nodes[i].req ELSE MinP(nodes, i)
+CSum(nodes, f(_)) == SumOver(Idx(nodes), f)
+CoarseOK(nodes, total, rt) ==
+    LET N == Len(nodes) IN
+    /\ Bounds(nodes, rt)                                                  \* floor is monotone and commutes with min / max
+    /\ (CSum(nodes, LAMBDA i : MinP(nodes, i)) + N <= total => CSum(nodes, LAMBDA i : rt[i]) <= total)
+    \* a sibling that is surely still unsatisfied and has a weight, while the hand-out surely differs from the total
+    /\ (CSum(nodes, LAMBDA i : CBase(nodes, i)) + N <= total =>
+           ~(/\ \E i \in Idx(nodes) : rt[i] < nodes[i].req /\ nodes[i].wpos
+             /\ (CSum(nodes, LAMBDA i : rt[i]) < total - N \/ CSum(nodes, LAMBDA i : rt[i]) > total)))
+    /\ \A i \in Idx(nodes) : nodes[i].req > MinP(nodes, i) => rt[i] >= MinP(nodes, i) /\ rt[i] <= nodes[i].req
+
 \* computeHamiltonDeltas: largest-remainder split of T among H by weight (ties by name = index)
 Hamilton(nodes, T, H) ==
     LET W     == SumOver(H, LAMBDA i : nodes[i].w)
